@@ -42,11 +42,38 @@ def build_driver():
     subprocess.check_call(["cargo", "build", "--release", "--offline"], cwd=os.path.join(ROOT, "driver"), env=env)
 
 
-def generate(cfg="default", repo=REPO, crate="engeom", manifest_dir=None, quiet=True):
-    """Run the driver for `cfg` ('default' or 'stl'); returns the path to the fact file."""
-    build_driver()
+def _locked(fn):
+    import fcntl
     os.makedirs(os.path.join(WORK, "facts"), exist_ok=True)
+    with open(os.path.join(WORK, "lock"), "w") as lk:
+        fcntl.flock(lk, fcntl.LOCK_EX)
+        try:
+            return fn()
+        finally:
+            fcntl.flock(lk, fcntl.LOCK_UN)
+
+
+def generate(cfg="default", repo=REPO, crate="engeom", manifest_dir=None, quiet=True):
+    """Run the driver for `cfg` ('default' or 'stl'); returns the path to the fact file.
+    Serialised across processes: checks of different properties may be started concurrently and share the target directory."""
+    return _locked(lambda: _generate(cfg, repo, crate, manifest_dir, quiet))
+
+
+def _read(cfg, repo, crate, manifest_dir):
+    path = _generate(cfg, repo, crate, manifest_dir, True)
+    with open(path) as fh:
+        return json.load(fh)
+
+
+def _generate(cfg, repo, crate, manifest_dir, quiet):
+    build_driver()
     h = src_hash(repo)
+    if manifest_dir:        # a fixture crate analysed against the current tree: key the cache on both
+        hh = hashlib.sha256(h.encode())
+        for f in sorted(glob.glob(os.path.join(manifest_dir, "src", "**", "*.rs"), recursive=True)):
+            with open(f, "rb") as fh:
+                hh.update(fh.read())
+        h = hh.hexdigest()[:24]
     out = os.path.join(WORK, "facts", f"{crate}-{cfg}.json")
     if os.path.exists(out) and not os.environ.get("VERIF_FORCE_FACTS"):
         try:
@@ -91,12 +118,29 @@ def generate(cfg="default", repo=REPO, crate="engeom", manifest_dir=None, quiet=
 
 
 def load(cfg="default", **kw):
-    path = generate(cfg, **kw)
-    with open(path) as fh:
-        d = json.load(fh)
+    d = _locked(lambda: _read(cfg, kw.get("repo", REPO), kw.get("crate", "engeom"), kw.get("manifest_dir")))
     if d.get("src_hash") != src_hash(kw.get("repo", REPO)) and kw.get("crate", "engeom") == "engeom":
         raise SystemExit("facts: stale fact file (hash mismatch) - fail closed")
     return d
+
+
+def load_fixtures(repo=None):
+    """facts of the fixture crate (/verif/fixtures, path-dependent on the analysed tree), built in .work/fixtures"""
+    repo = repo or REPO
+    return _locked(lambda: _load_fixtures(repo))
+
+
+def _load_fixtures(repo):
+    src = os.path.join(ROOT, "fixtures")
+    dst = os.path.join(WORK, "fixtures")
+    shutil.rmtree(dst, ignore_errors=True)
+    shutil.copytree(src, dst, ignore=shutil.ignore_patterns("target", "Cargo.lock"))
+    with open(os.path.join(dst, "Cargo.toml")) as fh:
+        t = fh.read()
+    with open(os.path.join(dst, "Cargo.toml"), "w") as fh:
+        fh.write(t.replace('path = "/repo"', f'path = "{os.path.abspath(repo)}"'))
+    shutil.copy(os.path.join(repo, "Cargo.lock"), os.path.join(dst, "Cargo.lock"))
+    return _read("default", repo, "vfix", dst)
 
 
 if __name__ == "__main__":
